@@ -149,6 +149,13 @@ class RefKFAC:
                     if self.hook and self.mini[n] % self.acc == 0:
                         self._update_layer(n)
 
+    def forward_only(self, mom_a):
+        """A train-mode forward pass that is not followed by a backward pass (only meaningful when factors are updated in step())."""
+        if self.steps % self.val('F') == 0:
+            for n in self.names:
+                if n in mom_a:
+                    self.pa[n].append(mom_a[n])
+
     def reset_batch(self):
         for n in self.names:
             self.pa[n] = []
@@ -271,6 +278,14 @@ class Capture:
         for n, m in self.modules.items():
             if n in self.inp and n in self.gout:
                 out[n] = moments(m, self.inp[n], self.gout[n] / scale)
+        return out
+
+    def moments_a(self):
+        out = {}
+        for n, m in self.modules.items():
+            if n in self.inp:
+                bias = getattr(m, 'bias', None) is not None
+                out[n] = moment_conv_in(self.inp[n], m, bias) if module_kind(m) == 'conv' else moment_linear_in(self.inp[n], bias)
         return out
 
     def remove(self):
